@@ -280,6 +280,10 @@ pub struct RegexEngine {
     pub kind: Kind,
 }
 
+thread_local! {
+    static FAMILIES: std::cell::RefCell<Option<(Kind, Tier, Vec<Box<dyn Family>>)>> = std::cell::RefCell::new(None);
+}
+
 /// what a chunk thread owns
 struct Chunk<'a> {
     kind: Kind,
@@ -325,6 +329,7 @@ impl Engine for RegexEngine {
     }
 
     fn run_batch(&self, ctx: &Ctx, batch: usize, rep: &mut Report) {
+        clear_current_case();
         if batch == 0 {
             // machinery self-check: the two reference semantics agree
             cross_validate(rep);
@@ -332,16 +337,28 @@ impl Engine for RegexEngine {
         }
         let shift = shift_of(ctx.seed);
         let mut b = batch - 1;
-        let fams = families(self.kind, ctx.tier);
-        for (fi, f) in fams.into_iter().enumerate() {
-            let n = num_chunks(f.len(), shift);
-            if b < n {
-                let (lo, hi) = chunk_bounds(f.len(), shift, b);
-                run_chunk(self.kind, ctx.tier, fi, f, lo, hi, None, rep);
-                return;
+        // the families are built once per worker process
+        FAMILIES.with(|cell| {
+            let mut g = cell.borrow_mut();
+            let stale = match &*g {
+                Some((k, t, _)) => *k != self.kind || *t != ctx.tier,
+                None => true,
+            };
+            if stale {
+                *g = Some((self.kind, ctx.tier, families(self.kind, ctx.tier)));
+                beat();
             }
-            b -= n;
-        }
+            let fams = &g.as_ref().unwrap().2;
+            for (fi, f) in fams.iter().enumerate() {
+                let n = num_chunks(f.len(), shift);
+                if b < n {
+                    let (lo, hi) = chunk_bounds(f.len(), shift, b);
+                    run_chunk(self.kind, ctx.tier, fi, f.as_ref(), lo, hi, None, rep);
+                    return;
+                }
+                b -= n;
+            }
+        });
     }
 
     fn replay(&self, _ctx: &Ctx, case: &Value, rep: &mut Report) {
@@ -353,7 +370,7 @@ impl Engine for RegexEngine {
             let idx = h["index"].as_u64().unwrap_or(0) as usize;
             let fams = families(kind, tier);
             if let Some(f) = fams.into_iter().nth(fi) {
-                run_chunk(kind, tier, fi, f, lo, idx + 1, Some(idx), rep);
+                run_chunk(kind, tier, fi, f.as_ref(), lo, idx + 1, Some(idx), rep);
             }
             return;
         }
@@ -366,7 +383,7 @@ impl Engine for RegexEngine {
             }
         };
         let f = ListFamily { name: "replay".into(), u: Universe::new(uid), items: vec![p], shallow: if case["shallow"] == true { 1 } else { 0 } };
-        run_chunk(kind, Tier::Quick, 0, Box::new(f), 0, 1, None, rep);
+        run_chunk(kind, Tier::Quick, 0, &f, 0, 1, None, rep);
     }
 
     fn hang_is_violation(&self, _prop: &str) -> bool {
@@ -377,10 +394,11 @@ impl Engine for RegexEngine {
 /// Run programs lo..hi of a family on one fresh manager, in a fresh OS thread (so that the
 /// thread-local manager of the wrappers is fresh too). When `only` is set (replay of a
 /// history-dependent case), violations are reported for that index only.
-fn run_chunk(kind: Kind, tier: Tier, fi: usize, f: Box<dyn Family>, lo: usize, hi: usize, only: Option<usize>, rep: &mut Report) {
+fn run_chunk(kind: Kind, tier: Tier, fi: usize, f: &dyn Family, lo: usize, hi: usize, only: Option<usize>, rep: &mut Report) {
     // programs are generated here (the family is not Send), the checks run in the thread
     let progs: Vec<(usize, P, bool)> = (lo..hi).filter(|&i| f.include(i)).map(|i| (i, f.get(i), f.is_shallow(i))).collect();
     let u = f.universe().clone();
+    beat();
     let r = std::thread::Builder::new()
         .stack_size(256 << 20)
         .spawn(move || {
@@ -1421,6 +1439,7 @@ pub fn cross_validate(rep: &mut Report) {
     progs.extend((0..side.len()).step_by(41).map(|i| side.get(i)));
     let mut bad = 0u64;
     for p in &progs {
+        beat();
         let d = cache.dfa(p);
         let mut ws = WordSem::new(&u);
         for w in &words {
